@@ -13,19 +13,24 @@ from fractions import Fraction
 from .common import case, guarded
 
 ID = "C05"
-RULE = ("matrices: exhaustive 0/1 matrices (quick <= 3x4, thorough <= 3x5 and 4x4, degenerate 0-row / 0-column shapes "
-        "for solve_consecutive_ones), random up to 6x7 (planted intervals under a hidden column permutation with bit "
-        "flips, duplicated and all-zero rows and columns, uniform); instances: all profiles of <= 3 ballots over <= 3 "
-        "(thorough 4) alternatives per recogniser, random m <= 5, n <= 5 (thorough 6 / 6) from planted CI / CEI / VI / "
-        "VEI / partition / 2-partition / uniform generators with flips, repeated ballots, empty and full approval sets, "
-        "unapproved alternatives, arbitrary labels in arbitrary insertion order, 1 or 2 categories; large planted "
-        "instances m, n <= 40 (witness check + planted certificate, no reference). non-trivial = >= 3 columns "
-        "(alternatives) and a row (ballot) with >= 2 ones and >= 1 zero")
+RULE = ("matrices: exhaustive 0/1 matrices (quick <= 3x4 and 4x3, thorough <= 3x5 and 4x4; degenerate 0-row / 0-column "
+        "shapes for solve_consecutive_ones), random up to 6x7 (planted intervals under a hidden column permutation "
+        "with 0-4 bit flips, duplicated and all-zero rows and columns, uniform), block-structured matrices with <= 8 "
+        "columns (nested P/Q nodes, rows cutting through 2-3 blocks), large planted up to 40x40; instances: every "
+        "recogniser on all ordered profiles of <= 3 ballots over <= 3 alternatives, 4 alternatives with <= 3 ballots "
+        "(quick: ballot multisets in one random arrangement; thorough: all ordered profiles), random m, n <= 6 (thorough "
+        "7) from planted CI / CEI / VI / VEI / partition / 2-partition / forbidden-cycle / uniform generators with "
+        "flips, repeated ballots, empty and full approval sets, unapproved alternatives, arbitrary labels in arbitrary "
+        "insertion order, 1 or 2 categories; large planted instances 8 <= m, n <= 40 (witness check + planted "
+        "certificate; partition references run at every size); instance_to_ci_matrix compared through "
+        "c1p_decide(matrix) == ci_decide(instance). non-trivial = >= 3 columns (alternatives) and a row (ballot) with "
+        ">= 2 ones and >= 1 zero")
 EXHAUSTIVE = {
-    "quick": "all 0/1 matrices with <= 3 rows and <= 4 columns (and 4x3); all profiles with <= 3 ballots over <= 3 "
-             "alternatives for each of the 8 recognisers",
-    "thorough": "all 0/1 matrices up to 3x5 and 4x4; all profiles (ballot multisets, one random arrangement each) with "
-                "<= 3 ballots over 4 alternatives and all ordered profiles with <= 3 ballots over <= 3 alternatives",
+    "quick": "all 0/1 matrices with <= 3 rows and <= 4 columns, and 4x1..4x3; all ordered profiles with <= 3 ballots "
+             "over <= 3 alternatives, all ballot multisets of size <= 3 over 4 alternatives, for each of the 8 "
+             "recognisers",
+    "thorough": "all 0/1 matrices up to 3x5 and 4x4; all ordered profiles with <= 3 ballots over <= 4 alternatives for "
+                "each of the 8 recognisers",
 }
 TRUSTED = [
     "not modelled (R): the PQ-tree code of consecutive_ones.py (reorder_sets, P/Q.set_contiguous, simplify, flatten): "
